@@ -6,26 +6,31 @@ import SaphyrVerif.Lemmas.C20_Lit
 # C20 — presentation wrappers and serializer options change layout only, never data
 
 Same model (`Model/Emitter.lean`) and reader (`Spec/EmitReader.lean`) as C13.  The full statement
-`C20_Full` is FALSE for the code as it is; the (F) theorems give the witnesses (each is also a stable
-oracle class of the implementation-only round-trip check).  Proved parts:
+`C20_Full` is still FALSE for the code: `FoldStr` turns single line breaks into blanks (text pinned by
+the crate's own tests, `foldstr_alters_data`), `SpaceAfter` around a `|+` literal adds a line break to
+the string (documented caveat, `space_after_block_string_counterexample`).  Proved parts:
 
-* comments: what is staged contains no line feed (`comment_single_line_partial`) — the property
-  really needed (no YAML line break at all) fails for CR: `comment_cr_injects_key`; a NUL in a
-  comment truncates the document: `comment_nul_truncates_document`; comments are suppressed in flow
+* comments (FULL for the wrapper's own duty): what `Commented` stages contains no YAML line break
+  (LF, CR, NEL, LS, PS), no NUL, no other control character but TAB, and has the length of the
+  comment (`comment_single_line`); the former defects are regression theorems
+  (`comment_cr_regression`, `comment_nul_regression`: fix 8388868); comments are suppressed in flow
   context and dropped by block sequences
 * `SpaceAfter`: exactly one extra line break after the value, nothing else
 * options: on the C13 fragment the emitted text does not depend on `min_fold_chars`,
   `folded_wrap_chars` (beyond the string-length bound), `prefer_block_scalars`, nor on the scalar-text
-  functions; hence the reader result does not depend on them (`options_layout_only_partial`)
+  functions, and for EVERY `indent_step ≥ 1` and both settings of `compact_list_indent` it reads back
+  as the value: the data never depends on these options (`options_layout_only_partial`)
 * flow wrappers: `FlowSeq` / `FlowMap` around a sequence / mapping of the flow fragment (leaves, `Some`,
-  newtype structs, nested sequences / tuples / mappings with distinct safe string keys) write one line of
+  newtype structs, nested sequences / tuples / tuple structs / mappings with distinct safe string keys,
+  and — since fix 1fd2d48 — enum variants with data, written `{Variant: payload}`) write one line of
   flow text that reads back as the same tree (`flow_wrapper_roundtrip_partial`), hence as the same tree
   as the unwrapped value where that is in the C13 fragment too (`flow_wrapper_same_tree_partial`)
-* explicit literal strings: `LitStr(s)` at the root round-trips exactly when `s` has no CR / NUL, some
-  content, and needs no indentation indicator (`explicit_literal_roundtrip_partial`)
-* explicit block strings: `LitStr` with CR breaks the document (`litstr_cr_breaks_document`),
-  `FoldStr` turns single line breaks into blanks (`foldstr_alters_data`), block strings inside flow
-  wrappers are written inside the brackets (`block_string_in_flow_counterexample`)
+* explicit literal strings: `LitStr(s)` at the root round-trips exactly when `s` has no control
+  character but LF / TAB, some content, and needs no indentation indicator
+  (`explicit_literal_roundtrip_partial`); with CR / NUL / other controls, inside flow collections and for
+  two or more line breaks only the repaired code falls back to a quoted scalar / writes every empty
+  line (`litstr_cr_regression`, `litstr_nul_regression`, `block_string_in_flow_regression`,
+  `litstr_only_newlines_regression`: fixes 5c1f2f6 54858b9 4b402ce)
 -/
 namespace SaphyrVerif.Emit
 open SaphyrVerif
@@ -54,14 +59,50 @@ variable {o : Opts} {f : ScalarFns}
 
 /-! ## comments -/
 
-/-- (T) what `Commented` stages contains no line feed … -/
+/-- YAML line breaks (1.1 and 1.2), NUL and the other control characters except TAB -/
+def isBreakOrControl (c : Char) : Bool :=
+  c == '\n' || c == '\r' || c.toNat == 0x85 || c.toNat == 0x2028 || c.toNat == 0x2029 || c.toNat == 0 ||
+  (isControl c && c != '\t')
+
+/-- (T, full for the wrapper's duty) what `Commented` stages is one line: no character of it is a
+line break of any YAML version, a NUL or another control character (TAB excepted), and only such
+characters were replaced (the length is kept, every other character is unchanged). -/
+theorem comment_single_line (c : List Char) :
+    (∀ x ∈ sanitizeComment c, isBreakOrControl x = false) ∧ (sanitizeComment c).length = c.length ∧
+    (∀ i (h : i < c.length), isBreakOrControl c[i] = false →
+      (sanitizeComment c)[i]'(by simpa [sanitizeComment] using h) = c[i]) := by
+  refine ⟨?_, by simp [sanitizeComment], ?_⟩
+  · intro x hx
+    simp only [sanitizeComment, List.mem_map] at hx
+    obtain ⟨y, _, rfl⟩ := hx
+    by_cases hy : ((isControl y && y != '\t') || y.toNat == 0x2028 || y.toNat == 0x2029) = true
+    · rw [if_pos hy]; decide
+    · rw [if_neg hy]
+      simp only [Bool.or_eq_true, not_or, Bool.not_eq_true] at hy
+      obtain ⟨⟨h1, h2⟩, h3⟩ := hy
+      have hn : ∀ k : Nat, k ≤ 0x1F ∨ (0x7F ≤ k ∧ k ≤ 0x9F) → y.toNat = k → y ≠ '\t' → False := by
+        intro k hk he hne
+        have : isControl y = true := by simp [isControl, he]; omega
+        simp [this, hne] at h1
+      have hnl : y ≠ '\n' := fun e => hn 10 (by omega) (by rw [e]; rfl) (by rw [e]; decide)
+      have hcr : y ≠ '\r' := fun e => hn 13 (by omega) (by rw [e]; rfl) (by rw [e]; decide)
+      have h85 : y.toNat ≠ 0x85 := fun e => hn 0x85 (by omega) e (by rintro rfl; simp at e)
+      have h0 : y.toNat ≠ 0 := fun e => hn 0 (by omega) e (by rintro rfl; simp at e)
+      simp [isBreakOrControl, hnl, hcr, h85, h0, h1, h2, h3]
+  · intro i h hb
+    simp only [sanitizeComment, List.getElem_map]
+    have : ((isControl c[i] && c[i] != '\t') || c[i].toNat == 0x2028 || c[i].toNat == 0x2029) = false := by
+      simp only [isBreakOrControl, Bool.or_eq_false_iff] at hb
+      obtain ⟨⟨⟨⟨⟨⟨_, _⟩, _⟩, h28⟩, h29⟩, _⟩, hc⟩ := hb
+      simp only [beq_eq_false_iff_ne, ne_eq] at h28 h29
+      simp [h28, h29, hc]
+    simp [this]
+
+/-- (T) in particular no line feed (the part proved before the repair) -/
 theorem comment_single_line_partial (c : List Char) : '\n' ∉ sanitizeComment c := by
   intro h
-  simp only [sanitizeComment, List.mem_map] at h
-  obtain ⟨x, _, hx⟩ := h
-  split at hx
-  · exact absurd hx (by decide)
-  · rename_i hne; exact hne (by simp [hx])
+  have := (comment_single_line c).1 _ h
+  exact absurd this (by decide)
 
 /-- … and is exactly what the wrapper stages in block context: the comment text with line feeds
 replaced (nothing else), cleared again after the value. -/
@@ -87,26 +128,20 @@ theorem comment_follows_scalar (tok c : List Char) (s : St) (hs : s.inFlow = 0)
   · by_cases hp : s.pendingSpaceAfterColon = true <;>
       simp [serToken, writeSpaceIfPending, indentIfLineStart, writeEndOfScalar, newline, St.write, hs, hc, hals, hp]
 
-/-- (F) the property actually needed — the staged comment contains no YAML line break — is false:
-a CR survives sanitising … -/
-theorem comment_cr_survives : '\r' ∈ sanitizeComment "c\rinjected: 2".toList := by decide
-
-/-- (F) … and injects a key: `S { xn: Commented(1, "c\rinjected: 2") }` reads back with a second
-key `injected`. -/
-theorem comment_cr_injects_key :
+/-- (regression, fix 8388868) a CR in a comment is replaced like LF: `S { xn: Commented(1,
+"c\rinjected: 2") }` reads back as itself (the CR used to start a new line: a second key `injected`). -/
+theorem comment_cr_regression :
     emit {} implFns (SVal.struct [("xn".toList, .commented (.int 1) "c\rinjected: 2".toList)]) =
-      .ok "xn: 1 # c\rinjected: 2\n".toList ∧
-    readDoc "xn: 1 # c\rinjected: 2\n".toList =
-      some (.map [(.str "xn".toList, .int 1), (.str "injected".toList, .int 2)]) ∧
-    erase (SVal.struct [("xn".toList, .commented (.int 1) "c\rinjected: 2".toList)]) = .map [(.str "xn".toList, .int 1)] :=
-  ⟨rfl, by decide +kernel, rfl⟩
+      .ok "xn: 1 # c injected: 2\n".toList ∧
+    readDoc "xn: 1 # c injected: 2\n".toList =
+      some (erase (SVal.struct [("xn".toList, .commented (.int 1) "c\rinjected: 2".toList)])) :=
+  ⟨rfl, by decide +kernel⟩
 
-/-- (F) a NUL character in a comment ends the input for the scanner: everything after the comment
-is silently dropped (`(Commented(true, "\0"), 45)` reads back as `[true]`). -/
-theorem comment_nul_truncates_document :
-    emit {} implFns (.tuple [.commented (.bool true) [Char.ofNat 0], .int 45]) =
-      .ok ("- true # ".toList ++ [Char.ofNat 0] ++ "\n- 45\n".toList) ∧
-    readDoc ("- true # ".toList ++ [Char.ofNat 0] ++ "\n- 45\n".toList) = some (.seq [.bool true]) :=
+/-- (regression, fix 8388868) a NUL character in a comment is replaced by a blank (it used to end the
+input for the scanner: `(Commented(true, "\0"), 45)` read back as `[true]`). -/
+theorem comment_nul_regression :
+    emit {} implFns (.tuple [.commented (.bool true) [Char.ofNat 0], .int 45]) = .ok "- true #  \n- 45\n".toList ∧
+    readDoc "- true #  \n- 45\n".toList = some (erase (.tuple [.commented (.bool true) [Char.ofNat 0], .int 45])) :=
   ⟨rfl, by decide +kernel⟩
 
 /-- (T) comments are suppressed in flow context: the wrapper is transparent there. -/
@@ -119,7 +154,10 @@ theorem comment_suppressed_in_flow (v : SVal) (c : List Char) (s : St) (hs : s.i
 theorem comment_dropped_for_block_seq (s : St) (hs : s.inFlow = 0) (hf : s.pendingFlow ≠ some .anySeq) :
     (serializeSeq o s).1.flow = false ∧ (serializeSeq o s).2.pendingInlineComment = none := by
   have h1 : (s.pendingFlow == some PendingFlow.anySeq) = false := by simpa using hf
-  constructor <;> simp [serializeSeq, takeFlow, hs, h1]
+  constructor <;>
+    (cases ha : s.atLineStart <;> cases hd : s.afterDashDepth <;> cases hp : s.pendingSpaceAfterColon <;>
+      cases hl : s.lastValueWasBlock <;>
+      simp [serializeSeq, takeFlow, hs, h1, ha, hd, hp, hl, shiftForInlineNode])
 
 /-! ## SpaceAfter -/
 
@@ -162,49 +200,101 @@ theorem flow_wrapper_same_tree_partial (ho : FragOpts o) (hf : SafeContract f) (
 
 /-- (T) `LitStr(s)` at the root round-trips exactly — the chomping indicator is chosen from the
 number of trailing line feeds (`|-`, `|`, `|+`), every content line is indented by two blanks, one
-empty line is added per trailing line feed beyond the first — provided `s` contains no CR / NUL, has
-some content before its trailing line feeds, and its first non-empty line does not start with a blank
-(no indentation indicator).  Each excluded class is a defect: `litstr_cr_breaks_document`,
-`block_scalar_indent_indicator_counterexample`, oracle class `block-scalar-only-newlines`. -/
-theorem explicit_literal_roundtrip_partial (ho : FragOpts o) (s : List Char) (hs : LitOk s) :
+empty line is added per trailing line feed beyond the first — provided `s` contains no control
+character but LF / TAB, has some content before its trailing line feeds, and its first non-empty line
+does not start with a blank (no indentation indicator).  Outside: controls (quoted fallback:
+`litstr_cr_regression`), an indicator below a nested parent (quoted fallback, fix a252cf9), line breaks
+only (`litstr_only_newlines_regression`; a single one is still altered: oracle class
+`block-scalar-only-newlines`, text pinned by the crate's tests). -/
+theorem explicit_literal_roundtrip_partial (ho : FragOpts o) (hi : o.indentStep = 2) (s : List Char) (hs : LitOk s) :
     emit o f (.litStr s) = .ok (litText s) ∧ readDoc (litText s) = some (erase (.litStr s)) :=
-  ⟨emit_litStr ho s hs, by simpa [erase] using read_litText s hs⟩
+  ⟨emit_litStr ho hi s hs, by simpa [erase] using read_litText s hs⟩
 
 /-! ## options -/
 
-/-- (T) on the C13 fragment neither the remaining free options (`min_fold_chars`,
-`folded_wrap_chars` above the length of the strings, `prefer_block_scalars`) nor the choice of
-scalar-text functions changes a single byte of the output — hence not the data. -/
+/-- (T) on the C13 fragment neither `min_fold_chars`, `folded_wrap_chars` (above the length of the
+strings), `prefer_block_scalars` nor the choice of scalar-text functions changes a single byte of the
+output; `indent_step` (any value ≥ 1) and `compact_list_indent` change the indentation only: under
+two option vectors of the fragment, whatever their steps and list styles, both texts read back as the
+value. -/
 theorem options_layout_only_partial {o1 o2 : Opts} {f1 f2 : ScalarFns} (h1 : FragOpts o1) (h2 : FragOpts o2)
     (hf1 : SafeContract f1) (hf2 : SafeContract f2) (v : SVal)
     (hv1 : inFrag o1.foldedWrapCol v = true) (hv2 : inFrag o2.foldedWrapCol v = true) :
-    emit o1 f1 v = emit o2 f2 v ∧ ∃ t, emit o1 f1 v = .ok t ∧ readDoc t = some (erase v) := by
-  refine ⟨?_, emit_roundtrip_partial h1 hf1 v hv1⟩
-  rw [emit_layout_partial h1 hf1 v hv1, emit_layout_partial h2 hf2 v hv2]
+    (o1.indentStep = o2.indentStep → o1.compactListIndent = o2.compactListIndent → emit o1 f1 v = emit o2 f2 v) ∧
+    (∃ t1 t2, emit o1 f1 v = .ok t1 ∧ emit o2 f2 v = .ok t2 ∧ readDoc t1 = some (erase v) ∧ readDoc t2 = some (erase v)) := by
+  obtain ⟨t1, he1, hr1⟩ := emit_roundtrip_partial h1 hf1 v hv1
+  obtain ⟨t2, he2, hr2⟩ := emit_roundtrip_partial h2 hf2 v hv2
+  refine ⟨fun hk hcp => ?_, t1, t2, he1, he2, hr1, hr2⟩
+  rw [emit_layout_partial h1 hf1 v hv1, emit_layout_partial h2 hf2 v hv2, hk, hcp]
 
 end
 
-/-! ## explicit block strings and flow wrappers: counterexamples -/
+/-! ## explicit block strings and flow wrappers: regression theorems -/
 
-/-- (F) `LitStr("a\rb")`: the CR is written raw into the literal block; it is a line break, the text
-after it is not indented: the document is rejected. -/
-theorem litstr_cr_breaks_document :
-    emit {} implFns (.litStr "a\rb".toList) = .ok "|-\n  a\rb\n".toList ∧
-    readDoc "|-\n  a\rb\n".toList = none := ⟨rfl, by decide +kernel⟩
+/-- (regression, fix 5c1f2f6) `LitStr("a\rb")` is written as a quoted scalar (the CR used to be written
+raw into the literal block, where it is a line break: the document was rejected). -/
+theorem litstr_cr_regression :
+    emit {} implFns (.litStr "a\rb".toList) = .ok "\"a\\rb\"\n".toList ∧
+    readDoc "\"a\\rb\"\n".toList = some (erase (.litStr "a\rb".toList)) := ⟨rfl, by decide +kernel⟩
+
+/-- (regression, fix 5c1f2f6) same for NUL (it used to cut the document). -/
+theorem litstr_nul_regression :
+    emit {} implFns (.litStr ['a', Char.ofNat 0, 'b']) = .ok "\"a\\0b\"\n".toList ∧
+    readDoc "\"a\\0b\"\n".toList = some (erase (.litStr ['a', Char.ofNat 0, 'b'])) := ⟨rfl, by decide +kernel⟩
+
+/-- (regression, fix 4b402ce) `LitStr("\n\n")`: one empty line per line break under `|+` (a single
+empty line used to be written: the string read back as `"\n"`). -/
+theorem litstr_only_newlines_regression :
+    emit {} implFns (.litStr "\n\n".toList) = .ok "|+\n  \n  \n".toList ∧
+    readDoc "|+\n  \n  \n".toList = some (erase (.litStr "\n\n".toList)) := ⟨rfl, by decide +kernel⟩
+
+/-- (regression, fix 54858b9) `FlowSeq(vec![LitStr("l")])`: an ordinary flow scalar (the block scalar
+header and body used to be written inside the brackets). -/
+theorem block_string_in_flow_regression :
+    emit {} implFns (.flowSeq (.seq [.litStr "l".toList])) = .ok "[l]\n".toList ∧
+    readDoc "[l]\n".toList = some (erase (.flowSeq (.seq [.litStr "l".toList]))) := ⟨rfl, by decide +kernel⟩
+
+/-- (regression, fix 1fd2d48) enum variants with data inside flow collections get braces of their own
+(`{k: Nv: 1}` used to be written: not YAML). -/
+theorem variant_in_flow_regression :
+    emit {} implFns (.flowMap (SVal.struct [("k".toList, .newtypeVariant "Nv".toList (.int 1))])) = .ok "{k: {Nv: 1}}\n".toList ∧
+    readDoc "{k: {Nv: 1}}\n".toList =
+      some (erase (.flowMap (SVal.struct [("k".toList, .newtypeVariant "Nv".toList (.int 1))]))) ∧
+    emit {} implFns (.flowSeq (.seq [.tupleVariant "Tv".toList [.int 1, .int 2],
+      SVal.structVariantOf "Sv".toList [("a".toList, .tupleStruct [])]])) = .ok "[{Tv: [1, 2]}, {Sv: {a: []}}]\n".toList :=
+  ⟨rfl, by decide +kernel, rfl⟩
+
+/-- (regression, fix a561293) a long unit variant name in mapping-value position, folded
+automatically, has its body indented under its key (it used to be indented from depth 0). -/
+theorem unit_variant_auto_folded_regression :
+    emit { foldedWrapCol := 10 } implFns
+      (.seq [SVal.struct [("k".toList, .unitVariant "E".toList "lorem ipsum dolor".toList)]]) =
+      .ok "- k: >-\n    lorem\n    ipsum dolor\n".toList ∧
+    readDoc "- k: >-\n    lorem\n    ipsum dolor\n".toList =
+      some (erase (.seq [SVal.struct [("k".toList, .unitVariant "E".toList "lorem ipsum dolor".toList)]])) :=
+  ⟨rfl, by decide +kernel⟩
+
+/-- (regression, fixes f421f34 beca5d5) a literal block string as a field of a tuple struct / tuple
+variant is indented under its dash (the body used to be indented from depth 0). -/
+theorem block_scalar_after_tuple_dash_regression :
+    emit {} implFns (SVal.struct [("k".toList, .tupleStruct [.litStr "a\nb".toList, .int 1])]) =
+      .ok "k:\n  - |-\n    a\n    b\n  - 1\n".toList ∧
+    readDoc "k:\n  - |-\n    a\n    b\n  - 1\n".toList =
+      some (erase (SVal.struct [("k".toList, .tupleStruct [.litStr "a\nb".toList, .int 1])])) :=
+  ⟨rfl, by decide +kernel⟩
+
+/-! ## counterexamples (F): the defect classes still present -/
 
 /-- (F) `FoldStr("a\nb")`: every source line becomes one folded line, so the single line break
-reads back as a blank — different data even modulo trailing line breaks. -/
+reads back as a blank — different data even modulo trailing line breaks (the text is pinned by the
+crate's tests/test_block_str.rs and the unit test of wrapping.rs). -/
 theorem foldstr_alters_data :
     emit {} implFns (.foldStr "a\nb".toList) = .ok ">\n  a\n  b\n".toList ∧
     readDoc ">\n  a\n  b\n".toList = some (.str "a b\n".toList) ∧
     trimEndNl "a b\n".toList ≠ trimEndNl "a\nb".toList := ⟨rfl, by decide +kernel, by decide⟩
 
-/-- (F) `FlowSeq(vec![LitStr("l")])`: the block scalar is written inside the brackets. -/
-theorem block_string_in_flow_counterexample :
-    emit {} implFns (.flowSeq (.seq [.litStr "l".toList])) = .ok "[|-\n  l\n]\n".toList := rfl
-
 /-- (F) `SpaceAfter` around a literal string that ends in two line breaks (keep chomping): the
-blank line becomes part of the string. -/
+blank line becomes part of the string (documented caveat of the wrapper). -/
 theorem space_after_block_string_counterexample :
     emit {} implFns (.spaceAfter (.litStr "l\n\n".toList)) = .ok "|+\n  l\n  \n\n".toList ∧
     readDoc "|+\n  l\n  \n\n".toList = some (.str "l\n\n\n".toList) := ⟨rfl, by decide +kernel⟩
@@ -218,9 +308,9 @@ example : emit {} implFns (.seq [SVal.struct [("a".toList, .litStr " ".toList)]]
 /-- (F) the full statement does not hold for the code as it is. -/
 theorem C20_Full_false : ¬ C20_Full := by
   intro h
-  have h1 := h {} _ _ (by decide) litstr_cr_breaks_document.1
-  rw [litstr_cr_breaks_document.2] at h1
-  exact absurd h1 (by simp)
+  have h1 := h {} _ _ (by decide) foldstr_alters_data.1
+  rw [foldstr_alters_data.2.1] at h1
+  exact absurd h1 (by decide)
 
 /-! ## examples: the wrappers on the happy path (model output + reader) -/
 
@@ -238,7 +328,8 @@ example :
 example : LitOk "line 1\n\n  - indented # not a comment\nkey: 'v'\n\n".toList :=
   ⟨by decide, by decide, by decide⟩
 /-- the flow fragment is inhabited -/
-example : inFlowFragList [.int 1, .seq [.str "a".toList, .none], SVal.struct [("k".toList, .bool true), ("m".toList, .seq [])]] = true := by decide
+example : inFlowFragList [.int 1, .seq [.str "a".toList, .none], SVal.struct [("k".toList, .bool true), ("m".toList, .seq [])],
+    .newtypeVariant "nv".toList (.tupleVariant "tv".toList [.int 1, .tupleStruct []]), .structVariant "sv".toList []] = true := by decide
 example : emit {} implFns (.flowSeq (.seq [.int 1, .seq [.str "a".toList, .none], SVal.struct [("k".toList, .bool true), ("m".toList, .seq [])]])) =
     .ok "[1, [a, null], {k: true, m: []}]\n".toList := rfl
 /-- comments are suppressed inside flow collections -/
